@@ -147,14 +147,14 @@ Definition dec_vdir (s : sx) : option vdir :=
   | _ => None
   end.
 Definition enc_vario (o : vario) : sx :=
-  L [I (vr_ndim o); I (vr_nvar o); ofD (vr_scale o); ofB (vr_asym o); ofList ofW (vr_names o);
+  L [I (vr_ndim o); I (vr_nvar o); ofD (vr_scale o); I (vr_calcul o); ofList ofW (vr_names o);
      ofList (ofList ofD) (vr_vars o); ofList enc_vdir (vr_dirs o)].
 Definition dec_vario (s : sx) : option vario :=
   match s with
-  | L [I nd; I nv; sc; asy; names; vars; dirs] =>
-      sc' <-? asD sc ;; asy' <-? asB asy ;; names' <-? asListOf asW names ;; vars' <-? asListOf (asListOf asD) vars ;;
+  | L [I nd; I nv; sc; I cal; names; vars; dirs] =>
+      sc' <-? asD sc ;; names' <-? asListOf asW names ;; vars' <-? asListOf (asListOf asD) vars ;;
       dirs' <-? asListOf dec_vdir dirs ;;
-      Some {| vr_ndim := nd; vr_nvar := nv; vr_scale := sc'; vr_asym := asy'; vr_names := names'; vr_vars := vars'; vr_dirs := dirs' |}
+      Some {| vr_ndim := nd; vr_nvar := nv; vr_scale := sc'; vr_calcul := cal; vr_names := names'; vr_vars := vars'; vr_dirs := dirs' |}
   | _ => None
   end.
 
